@@ -308,8 +308,9 @@ package go_clipper2
 //@   props C14
 //@   pure
 //@   requires domPath(path, 29)
-//@   requires noWrap(path)
+//@   requires len(path) <= 7 || noWrap(path)
 //@   loop 0 invariant [acc] a == shoelace(path, _i) && prevPt == path[prevIdx(_i, len(path))] && len(path) >= 3
+//@   loop 0 invariant [bound] len(path) <= 7 ==> absI(a) <= int64(_i)*pow2(60)
 //@   ensures [short] len(path) < 3 ==> result == 0
 //@   ensures [half] len(path) >= 3 ==> 2*result == toReal(shoelace(path, len(path)))
 
@@ -322,13 +323,13 @@ package go_clipper2
 //@ func IsPositive64
 //@   props C14
 //@   requires domPath(poly, 29)
-//@   requires noWrap(poly)
+//@   requires len(poly) <= 7 || noWrap(poly)
 //@   ensures [sign] len(poly) >= 3 ==> result == (shoelace(poly, len(poly)) >= 0)
 //@   ensures [short] len(poly) < 3 ==> result
 
 //@ func AreaPaths64
 //@   props C14
-//@   requires forall(k, 0, len(paths), domPath(paths[k], 29) && noWrap(paths[k]))
+//@   requires forall(k, 0, len(paths), domPath(paths[k], 29) && (len(paths[k]) <= 7 || noWrap(paths[k])))
 //@   loop 0 invariant [sum] a == sumArea(paths, _i)
 //@   ensures [sum] result == sumArea(paths, len(paths))
 
@@ -344,3 +345,46 @@ package go_clipper2
 //@   loop 1.1 decreases end - i
 //@   ensures [short] len(polygon) < 3 ==> result == IsOutside
 //@   ensures [range] result == IsOn || result == IsInside || result == IsOutside
+
+// ---------------------------------------------------------------------------------
+// C08: Minkowski sum / difference — construction of the quad set
+// ---------------------------------------------------------------------------------
+
+//@ spec mkPt(a, b Point64, isSum bool) Point64 = ite(isSum, Point64{a.X + b.X, a.Y + b.Y}, Point64{a.X - b.X, a.Y - b.Y})
+//@ spec isQuad(q Path64, a, b, c, d Point64) bool = len(q) == 4 && ((q[0] == a && q[1] == b && q[2] == c && q[3] == d) || (q[0] == d && q[1] == c && q[2] == b && q[3] == a))
+//@ spec quadOK(q Path64, pattern, path Path64, isSum bool, g, i, h, j int) bool = isQuad(q, mkPt(path[g], pattern[h], isSum), mkPt(path[i], pattern[h], isSum), mkPt(path[i], pattern[j], isSum), mkPt(path[g], pattern[j], isSum))
+//@ spec prevPathIdx(i, pathLen int, isClosed bool) int = ite(i == 0, pathLen-1, i-1)
+
+//@ func ReversePath
+//@   props C08 C03
+//@   loop 0 invariant [rev] 0 <= i && i <= n && len(rp) == n && n == len(p) && forall(k, 0, i, same(rp[k], p[n-1-k]))
+//@   loop 0 decreases n - i
+//@   ensures [len] len(result) == len(p)
+//@   ensures [rev] forall(k, 0, len(p), same(result[k], p[len(p)-1-k]))
+
+//@ spec quadSome(q Path64, pattern, path Path64, isSum bool, lo int) bool = exists(a, lo, len(path), exists(b, 0, len(pattern), quadOK(q, pattern, path, isSum, ite(a == 0, len(path)-1, a-1), a, ite(b == 0, len(pattern)-1, b-1), b)))
+
+//@ func minkowskiInternal
+//@   props C08 C03
+//@   requires domPath(pattern, 27) && domPath(path, 27)
+//@   requires int64(len(pattern)) <= pow2(30) && int64(len(path)) <= pow2(30)
+//@   loop 0 invariant [tmp] len(tmp) == _i && patLen == len(pattern) && pathLen == len(path) && forall(k, 0, _i, len(tmp[k]) == patLen && forall(m, 0, patLen, tmp[k][m] == mkPt(path[k], pattern[m], isSum)))
+//@   loop 0.0 invariant [row] len(path2) == _i && forall(m, 0, _i, path2[m] == mkPt(pathPt, pattern[m], true))
+//@   loop 0.1 invariant [row] len(path2) == _i && forall(m, 0, _i, path2[m] == mkPt(pathPt, pattern[m], false))
+//@   loop 1 invariant [shape] delta <= i && (i <= pathLen || pathLen < delta) && len(tmp) == pathLen && patLen == len(pattern) && pathLen == len(path) && (delta == 0 || delta == 1) && (isClosed == (delta == 0))
+//@   loop 1 invariant [tmp] forall(k, 0, pathLen, len(tmp[k]) == patLen && forall(m, 0, patLen, tmp[k][m] == mkPt(path[k], pattern[m], isSum)))
+//@   loop 1 invariant [count] len(result) == (i-delta)*patLen
+//@   loop 1 invariant [gh] h == patLen-1 && (i == delta ==> g == ite(isClosed, pathLen-1, 0)) && (i > delta ==> g == i-1)
+//@   loop 1 invariant [quads] forall(k, 0, len(result), quadSome(result[k], pattern, path, isSum, delta))
+//@   loop 1 decreases pathLen - i
+//@   loop 1.0 invariant [shape] 0 <= j && j <= patLen && delta <= i && i < pathLen && len(tmp) == pathLen && patLen == len(pattern) && pathLen == len(path) && (delta == 0 || delta == 1) && (isClosed == (delta == 0))
+//@   loop 1.0 invariant [tmp] forall(k, 0, pathLen, len(tmp[k]) == patLen && forall(m, 0, patLen, tmp[k][m] == mkPt(path[k], pattern[m], isSum)))
+//@   loop 1.0 invariant [count] len(result) == (i-delta)*patLen + j
+//@   loop 1.0 invariant [gh] h == ite(j == 0, patLen-1, j-1) && g == ite(i == 0, pathLen-1, i-1)
+//@   loop 1.0 invariant [quads] forall(k, 0, len(result), quadSome(result[k], pattern, path, isSum, delta))
+//@   loop 1.0 decreases patLen - j
+//@   assert after quad [quad-shape] quadOK(quad, pattern, path, isSum, g, i, h, j)
+//@   assert after rQuad [rquad-shape] quadOK(rQuad, pattern, path, isSum, g, i, h, j)
+//@   ensures [count] len(path) >= ite(isClosed, 0, 1) ==> len(result) == (len(path) - ite(isClosed, 0, 1)) * len(pattern)
+//@   ensures [empty] len(path) < ite(isClosed, 0, 1) ==> len(result) == 0
+//@   ensures [quads] forall(k, 0, len(result), quadSome(result[k], pattern, path, isSum, ite(isClosed, 0, 1)))
